@@ -72,30 +72,59 @@ class OpenQLCircuitFactoryManager(IOpenQLCircuitFactory):
         kernel_uuid: str = f"kernel_{circuit_uuid[:8]}"
         if circuit_id is not None:
             program_uuid = circuit_id
-        sub_program_uuid: str = f"sub_{program_uuid}"
 
-        result_program: ql.Program = PlatformManager.construct_program(name=program_uuid)
-        kernel: ql.Kernel = PlatformManager.construct_kernel(name=kernel_uuid)
+        return self._construct_program(
+            circuit=process_circuit,
+            program_name=program_uuid,
+            kernel_name=kernel_uuid,
+        )
 
-        for operation_node in process_circuit._circuit_graph.get_node_iterator():
+    def _construct_program(self, circuit: ICircuitCompositeOperation, program_name: str, kernel_name: str) -> ql.Program:
+        """
+        Operations are collected in kernels, a kernel is closed whenever a sub-circuit is encountered.
+        This ensures that operations and (repeated) sub-circuits execute in the order they are listed.
+        Names of nested programs and kernels include their position to keep them unique within the program.
+        :return: OpenQL program based on (nested) circuit.
+        """
+        result_program: ql.Program = PlatformManager.construct_program(name=program_name)
+        kernel: Optional[ql.Kernel] = None
+        element_index: int = 0
+
+        for operation_node in circuit._circuit_graph.get_node_iterator():
             operation: ICircuitOperation = operation_node.operation
 
             # Recursion, if operation is a composite operation
             if isinstance(operation, ICircuitCompositeOperation):
-                inner_program: ql.Program = self.construct(operation, circuit_id=sub_program_uuid)
-                # TODO: deal with repetitions
-                for i in range(operation.nr_of_repetitions):
+                if kernel is not None:
+                    result_program.add_kernel(kernel)
+                    kernel = None
+                inner_program: ql.Program = self._construct_program(
+                    circuit=operation,
+                    program_name=f"sub_{program_name}_{element_index}",
+                    kernel_name=f"{kernel_name}_{element_index}",
+                )
+                element_index += 1
+                if operation.nr_of_repetitions == 1:
                     result_program.add_program(inner_program)
+                else:
+                    result_program.add_for(inner_program, operation.nr_of_repetitions)
+                continue
 
             # Guard clause, if request not supported raise exception
             operation_supported: bool = self.contains(factory_key=type(operation))
             if not operation_supported:
                 continue  # TODO: Maybe provide warning for skipped operation.
-            
-            # Extend kernel
+
+            if kernel is None:
+                kernel = PlatformManager.construct_kernel(name=kernel_name if element_index == 0 else f"{kernel_name}_{element_index}")
+                element_index += 1
             kernel = self.factory_lookup[type(operation)].construct(operation, kernel)
 
-        result_program.add_kernel(kernel)
+        # Program without any operation still contains a single (empty) kernel
+        if kernel is None and element_index == 0:
+            kernel = PlatformManager.construct_kernel(name=kernel_name)
+        if kernel is not None:
+            result_program.add_kernel(kernel)
         return result_program
 
     def contains(self, factory_key: Type[ICircuitOperation]) -> bool:
